@@ -2,7 +2,7 @@
 From CV Require Import Proofs.SchedP5.
 From CV Require Import Model.Base Model.Events Model.Contract Model.Normalize Proofs.BaseP Proofs.NormalizeP Proofs.NormalizeP2
   Proofs.NormalizeP3 Proofs.NormalizeP5 Proofs.NormalizeP6.
-From CV Require Proofs.NormalizeP4h.
+From CV Require Proofs.NormalizeP4h Proofs.NormalizeP7.
 From CV Require Proofs.Compose Proofs.PipelineP2.
 From Coq Require Import Permutation.
 
@@ -154,3 +154,19 @@ Example C11_sequential_order_nonvacuous :
   contract (map snd es) = true /\ normalized (map snd es) = false /\
   map fst (concat (nrun es)) = [1; 2; 5; 7; 8; 10; 11; 3; 4; 6; 9; 12].
 Proof. vm_compute. repeat split; reflexivity. Qed.
+
+(* "... AND IN THEIR ORIGINAL RELATIVE ORDER": for every complete stream obeying the Runner contract and every attempt
+   (feature, rule, scenario, retries), the projection of the forwarded stream on that attempt EQUALS the projection of
+   the input stream on it — same events with their metadata tags, same order (NormalizeP7: queueing puts an event at the
+   end of its own attempt's queue, all buffered events of an attempt sit in that one queue, emission moves a prefix) *)
+Theorem C11_attempt_order_preserved :
+  forall es f r s rt, contract (map snd es) = true ->
+    filter (fun e => NormalizeP7.same_att f r s rt (snd e)) (concat (nrun es))
+    = filter (fun e => NormalizeP7.same_att f r s rt (snd e)) es.
+Proof. exact NormalizeP7.attempt_order_preserved. Qed.
+Print Assumptions C11_attempt_order_preserved.
+
+Example C11_attempt_order_nonvacuous :
+  contract (map snd NormalizeP7.ex7) = true /\
+  length (filter (fun e => NormalizeP7.same_att 1 None 10 (Some (1, 0)) (snd e)) NormalizeP7.ex7) <> 0%nat.
+Proof. vm_compute. split; [reflexivity|discriminate]. Qed.
